@@ -39,6 +39,16 @@ NOTES.append("doubles vs rationals: the code compares the double fl((K-c)/K) (Py
 NOTES.append("k in {10,11,12,16,36} (r = 0 and, up to k = 16, r = 1) exercise the LETTER digits of np.base_repr ('AAA' is code [10;10;10] "
              "in the model) incl. strong quiescence at k >= 11; k = 36, r = 1 (46656 entries) is oracle-only like the large bucket; "
              "k = 1 and k = 37 are the rejected neighbours of the domain of C17_rrt_defined")
+NOTES.append("bucket 'paramtypes/*' mirrors what the unchanged library does with other argument forms: k, r, quiescent_state as "
+             "np.int32/int64/uint8 scalars (accepted; sizes with k^n <= 255 only, because with 8-bit scalars k**n wraps silently, e.g. "
+             "uint8 5**5 = 53 states); lambda_val as np.float64, np.float32 (dyadic values only: with a float32 target the library "
+             "compares in float32 or float64 depending on whether k is a Python or a NumPy int), Python int 0/1, Fraction (walk-through "
+             "only where K is a power of two: the library compares a Fraction target exactly with the double (K-c)/K, so for K = 27 "
+             "Fraction(9,27) is not recognised as reached on a table at 9/27), every exact double m/K incl. the m with (m/K)*K != m "
+             "(K = 243: 61, 122, 127); table_rule neighbourhoods as list/tuple/ndarray int8..int64/uint8 (decimal rendering) and "
+             "float64/float32/list of floats/bool (str(x) = '1.0' / 'True': looked up under exactly that string, ValueError otherwise); "
+             "tables as dict subclass, OrderedDict, defaultdict, MappingProxyType (table_rule: accepted; walk-through: returns iff no "
+             "perturbation is due, else the assignment raises)")
 ASSUMPTIONS = ['rational draws u and lambda a/b are passed to the code as the doubles a/b; a draw that ties with 1 - lambda is generated '
                'only when both are dyadic (exact in doubles); distinct small fractions differ by far more than an ulp',
                'exception classes of random_rule_table / table_walk_through are not compared (any exception on both sides agrees); '
@@ -251,6 +261,98 @@ def _tr_cases(rng, n_cases):
                'nb': nb, 'table': items, 'as_array': rng.random() < 0.5}
 
 
+def _paramtypes(rng, tier, flags):
+    """'paramtypes/*': the same calls with the arguments in the other forms callers use (NumPy scalars, np.float32/64,
+    Python int, Fraction, exact m/N doubles, tuples / ndarrays of several dtypes, dict subclasses / read-only mappings).
+    A guard such as isinstance(k, int), or a normalisation of the inputs, shows up here."""
+    out = []
+    thorough = tier == 'thorough'
+    # k, r, quiescent_state as NumPy integer scalars (sizes with k^n <= 255 so that uint8 arithmetic does not wrap)
+    for ptype in ('int32', 'int64', 'uint8'):
+        for k, r in ((2, 1), (3, 1), (3, 2), (5, 1), (2, 3), (11, 0)):
+            for sq, iso in (flags if thorough else [rng.choice(flags)]):
+                for qmode in ('given', 'none', 'bad'):
+                    c = _rrt_case(rng, k, r, sq, iso, qmode, rng.choice(LAMS), rng.choice(['random', 'alternating', 'never_q']),
+                                  'paramtypes/rrt/%s' % ptype)
+                    if qmode == 'bad':
+                        c['q'] = k if ptype == 'uint8' else rng.choice([-1, k])
+                    c['ptype'] = ptype
+                    out.append(c)
+                c = _twt_case(rng, k, r, sq, iso, rng.choice(['conforming', 'arbitrary']),
+                              rng.choice(['grid', 'near', 'offgrid', 'extreme', 'offgrid_double']), 'random',
+                              'paramtypes/twt/%s' % ptype)
+                if c['lam'][0] < 0 and ptype == 'uint8':
+                    c['lam'] = [0, 1]
+                c['ptype'] = ptype
+                out.append(c)
+    # lambda_val in the other numeric forms
+    dy = [[0, 1], [1, 1], [1, 2], [1, 4], [3, 4], [1, 8], [5, 8]]
+    for lam_type, lams in (('float64', [l for l in LAMS if l]), ('float32', dy), ('int', [[0, 1], [1, 1]]),
+                           ('Fraction', [l for l in LAMS if l])):
+        for k, r in ((2, 1), (3, 1), (4, 1), (2, 2)):
+            for rep in range(4 if thorough else 1):
+                sq, iso = rng.choice(flags)
+                c = _rrt_case(rng, k, r, sq, iso, 'given', rng.choice(lams), rng.choice(['random', 'alternating', 'tie']),
+                              'paramtypes/rrt/lam_%s' % lam_type)
+                c['lam_type'] = lam_type
+                out.append(c)
+                # a Fraction target is compared EXACTLY with the double (K-c)/K by the library; the model's reading is only
+                # faithful where that double is exact (K a power of two)
+                if lam_type == 'Fraction' and k == 3:
+                    continue
+                c = _twt_case(rng, k, r, sq, iso, 'conforming', 'current', 'random', 'paramtypes/twt/lam_%s' % lam_type)
+                K = k ** (2 * r + 1)
+                c['lam'] = rng.choice(lams) if lam_type in ('float32', 'int') else rng.choice([[rng.randrange(K + 1), K]] + lams)
+                c['lam_type'] = lam_type
+                out.append(c)
+    # exact m/N doubles: every attainable m on small tables (thorough), a sample incl. every m whose (m/N)*N is not m (quick)
+    for k, r in ((2, 1), (3, 1), (2, 2), (5, 1), (3, 2)):
+        K = k ** (2 * r + 1)
+        inexact = [m for m in range(K + 1) if (m / K) * K != m]
+        ms = list(range(K + 1)) if thorough else sorted(set(inexact + [0, K] + [rng.randrange(K + 1) for _ in range(3)]))
+        for m in ms:
+            for tkind in ('no_q', 'all_q'):        # walked down from lambda 1, up from lambda 0: the target m/K is hit exactly
+                sq, iso = (False, False) if rng.random() < 0.7 else rng.choice(flags)
+                c = _twt_case(rng, k, r, sq, iso, tkind, 'current', 'random', 'paramtypes/twt/exact_m_over_N/k%dr%d' % (k, r))
+                c['lam'] = [m, K]
+                out.append(c)
+        if K <= 32:
+            for m in (range(K + 1) if thorough else [rng.randrange(K + 1) for _ in range(3)]):
+                c = _rrt_case(rng, k, r, False, False, 'given', [m, K], 'random', 'paramtypes/rrt/exact_m_over_N')
+                out.append(c)
+    # tables that are dict subclasses / OrderedDict / read-only mappings
+    for tform in ('subclass', 'ordered', 'proxy', 'proxy'):
+        for k, r in ((2, 1), (3, 1)):
+            for rep in range(6 if thorough else 2):
+                sq, iso = rng.choice(flags)
+                c = _twt_case(rng, k, r, sq, iso, rng.choice(['conforming', 'all_q', 'no_q']),
+                              rng.choice(['current', 'grid', 'extreme', 'near']), 'random', 'paramtypes/twt/table_%s' % tform)
+                c['tform'] = tform
+                out.append(c)
+    # table_rule: neighbourhood forms x table forms, present and absent
+    nb_forms = ['list', 'tuple', 'int8', 'int32', 'int64', 'uint8', 'mixed', 'float64', 'float32', 'listfloat', 'bool']
+    tforms = [None, 'subclass', 'ordered', 'proxy', 'defaultdict']
+    for nb_form in nb_forms:
+        for rep in range(8 if thorough else 3):
+            L = rng.choice([1, 3, 5])
+            nb = [rng.randrange(2) for _ in range(L)] if nb_form == 'bool' else [rng.choice([0, 1, 2, 3, 9, 10, 12, 100]) for _ in range(L)]
+            key_int = ''.join('%d' % x for x in nb)
+            key_own = _render(nb, nb_form)
+            mode = rng.choice(['own', 'own', 'int_only', 'none'])
+            items = [['7', 3], ['000', 1]]
+            if mode == 'own':
+                items.insert(1, [key_own, rng.randrange(12)])
+            elif mode == 'int_only':        # only the integer rendering is stored: a float / bool neighbourhood must NOT find it
+                items.insert(1, [key_int, rng.randrange(12)])
+                if key_own != key_int:
+                    items = [it for it in items if it[0] != key_own]
+            items = list({s: v for s, v in items}.items())
+            items = [[s, v] for s, v in items]
+            out.append({'kind': 'paramtypes/table_rule/%s' % nb_form, 'op': 'table_rule', 'nb': nb, 'table': items,
+                        'as_array': False, 'nb_form': nb_form, 'tform': rng.choice(tforms)})
+    return out
+
+
 def generate(rng, tier):
     out = []
     flags = [(a, b) for a in (False, True) for b in (False, True)]
@@ -350,6 +452,7 @@ def generate(rng, tier):
         for sq, iso in ((True, True), (False, False)):
             tk = 'near' if (tier == 'quick' or k == 5) else 'grid'
             out.append(_twt_case(rng, k, r, sq, iso, 'conforming', tk, 'random', 'twt/big/k%dr%d' % (k, r)))
+    out.extend(_paramtypes(rng, tier, flags))
     # ---- table_rule
     out.extend(_tr_cases(rng, 250 if tier == 'quick' else 2500))
     rng.shuffle(out)          # spread the expensive cases over the shards
@@ -386,8 +489,11 @@ def run_impl(c):
     import cellpylib as cpl
     op = c['op']
     if op == 'table_rule':
-        nb = np.array(c['nb'], dtype=np.int64) if c['as_array'] else list(c['nb'])
-        table = {s: v for s, v in c['table']}
+        if c.get('nb_form'):
+            nb = _nb_form(c['nb'], c['nb_form'])
+        else:
+            nb = np.array(c['nb'], dtype=np.int64) if c['as_array'] else list(c['nb'])
+        table = _table_form({s: v for s, v in c['table']}, c.get('tform'))
         return list(call_impl(lambda: int(cpl.table_rule(nb, table))))
 
     if op == 'large':
@@ -412,26 +518,87 @@ def run_impl(c):
         return np.int32(c['ri'])
 
     K = c['k'] ** (2 * c['r'] + 1)
-    lam = None if c['lam'] is None else c['lam'][0] / c['lam'][1]
+    lam = _lam_form(c['lam'], c.get('lam_type'))
+    # 'paramtypes/*': k, r, quiescent_state handed over as NumPy integer scalars
+    ity = getattr(np, c['ptype']) if c.get('ptype') else (lambda x: x)
+    pk, pr, pq = ity(c['k']), ity(c['r']), (None if c['q'] is None else ity(c['q']))
     saved = (random.random, random.choice, np.random.randint)
     random.random, random.choice, np.random.randint = f_random, f_choice, f_randint
     try:
         if op == 'rrt':
             def go():
-                t, l, q = cpl.random_rule_table(c['k'], c['r'], lambda_val=lam, quiescent_state=c['q'],
+                t, l, q = cpl.random_rule_table(pk, pr, lambda_val=lam, quiescent_state=pq,
                                                 strong_quiescence=c['sq'], isotropic=c['iso'])
                 return {'table': [[str(s), int(v)] for s, v in t.items()], 'lam': _lam_obs(l, K), 'q': int(q),
                         'draws': [pos['u'], pos['c']]}
         else:
             def go():
-                table = {s: v for s, v in c['table']}
-                t, l = cpl.table_walk_through(table, lam, c['k'], c['r'], c['q'], strong_quiescence=c['sq'],
+                table = _table_form({s: v for s, v in c['table']}, c.get('tform'))
+                t, l = cpl.table_walk_through(table, lam, pk, pr, pq, strong_quiescence=c['sq'],
                                               isotropic=c['iso'])
                 return {'table': [[str(s), int(v)] for s, v in t.items()], 'lam': _lam_obs(l, K),
                         'draws': [pos['u'], pos['c']]}
         return list(call_impl(go, timeout=120))
     finally:
         random.random, random.choice, np.random.randint = saved
+
+
+class _DictSub(dict):
+    pass
+
+
+def _table_form(d, form):
+    import collections
+    import types
+    if form == 'subclass':
+        return _DictSub(d)
+    if form == 'ordered':
+        return collections.OrderedDict(d)
+    if form == 'proxy':
+        return types.MappingProxyType(d)
+    if form == 'defaultdict':
+        return collections.defaultdict(int, d)
+    return d
+
+
+def _lam_form(lam, ty):
+    import numpy as np
+    if lam is None:
+        return None
+    if ty == 'int':
+        assert lam[1] == 1
+        return int(lam[0])
+    if ty == 'Fraction':
+        return Fraction(lam[0], lam[1])
+    x = lam[0] / lam[1]
+    if ty == 'float64':
+        return np.float64(x)
+    if ty == 'float32':
+        assert dyadic(lam[1]) and lam[1] <= 1024      # exactly representable: every comparison is exact in any precision
+        return np.float32(x)
+    return x
+
+
+def _nb_form(nb, form):
+    import numpy as np
+    if form == 'tuple':
+        return tuple(nb)
+    if form in ('int8', 'int64', 'uint8', 'int32', 'float64', 'float32', 'bool'):
+        return np.array(nb, dtype=getattr(np, form if form != 'bool' else 'bool_'))
+    if form == 'listfloat':
+        return [float(x) for x in nb]
+    if form == 'mixed':
+        return [np.int64(x) if i % 2 == 0 else np.uint8(x) for i, x in enumerate(nb)]
+    return list(nb)
+
+
+def _render(nb, form):
+    """what str(x) of each element is, written independently of the library (''.join(str(x) ...))"""
+    if form in ('float64', 'float32', 'listfloat'):
+        return ''.join('%d.0' % x for x in nb)
+    if form == 'bool':
+        return ''.join('True' if x else 'False' for x in nb)
+    return ''.join('%d' % x for x in nb)
 
 
 def _run_large(c):
@@ -502,6 +669,8 @@ def to_coq(c, obs):
     if op == 'large':
         return 'CNoModel'
     if op == 'table_rule':
+        if c.get('nb_form') in ('float64', 'float32', 'listfloat', 'bool'):
+            return '(CTableLookup %s %s %s)' % (ckey(_render(c['nb'], c['nb_form'])), ctable(c['table']), cres(obs, cz))
         return '(CTableRule %s %s %s)' % (cnats(c['nb']), ctable(c['table']), cres(obs, cz))
     if op == 'rrt':
         o = cres(obs, lambda v: '(%s, %s, %s)' % (ctable(v['table']), clam(v['lam']), cz(v['q'])))
@@ -509,8 +678,8 @@ def to_coq(c, obs):
             cnat(c['k']), cnat(c['r']), copt(c['lam'], cq), copt(c['q'], cz), cbool(c['sq']), cbool(c['iso']),
             clist(c['us'], cq), cNs(c['cs']), cz(c['ri']), o)
     o = cres(obs, lambda v: '(%s, %s)' % (ctable(v['table']), clam(v['lam'])))
-    return '(CTwt %s %s %s %s %s %s %s %s %s)' % (
-        ctable(c['table']), cq(c['lam']), cnat(c['k']), cnat(c['r']), cz(c['q']), cbool(c['sq']), cbool(c['iso']),
+    return '(%s %s %s %s %s %s %s %s %s %s)' % (
+        'CTwtReadOnly' if c.get('tform') == 'proxy' else 'CTwt', ctable(c['table']), cq(c['lam']), cnat(c['k']), cnat(c['r']), cz(c['q']), cbool(c['sq']), cbool(c['iso']),
         cNs(c['cs']), o)
 
 
@@ -616,7 +785,7 @@ def oracle(c, obs):
                        v['target'][0], v['target'][1], v['K'] - v['c0'], v['K'], v['twt_msg']))
         return None
     if op == 'table_rule':
-        key = ''.join(str(x) for x in c['nb'])
+        key = _render(c['nb'], c.get('nb_form'))
         d = {s: v for s, v in c['table']}
         if key in d:
             if obs[0] != 'ok' or obs[1] != d[key]:
@@ -637,6 +806,14 @@ def oracle(c, obs):
     # table_walk_through
     if k < 2:
         return None
+    if c.get('tform') == 'proxy' and obs[0] != 'ok':
+        # a read-only mapping: an exception is what the library does as soon as a perturbation is due
+        K = k ** (2 * r + 1)
+        q, sq = c['q'], c['sq']
+        l0 = Fraction(K - sum(1 for _, x in c['table'] if x == q), K)
+        tgt = Fraction(c['lam'][0], c['lam'][1])
+        adm = [s for s, x in c['table'] if (x != q) == (l0 > tgt) and not (sq and _uniform(s))]
+        return None if (l0 != tgt and adm) else 'table_walk_through raised %s although no perturbation was due' % obs[1]
     if obs[0] != 'ok':
         return 'table_walk_through raised %s' % obs[1]
     v = obs[1]
